@@ -9,9 +9,12 @@ from harness.common import MemApp, hx, repo_py_files
 TAG_POOL = ['a', 'b', 'ab', 'a_b', 'list', 'list_comp', 'x', 'tok', 'TOK', 'n1']
 
 
-def gen_dict_tree(rng: random.Random, max_depth: int = 5, max_width: int = 6, root_tag: str = 'root') -> dict[str, Any]:
+def gen_dict_tree(rng: random.Random, max_depth: int = 5, max_width: int = 6, root_tag: str | None = None) -> dict[str, Any]:
 	"""Random DictTree for EntryOfDict: repeated / unique / empty child tags, tags that are prefixes of each other."""
 	counter = [0]
+	if root_tag is None:
+		# the root tag recurs below the root (recursive rules) in about half of the trees
+		root_tag = rng.choice(TAG_POOL) if rng.random() < 0.5 else 'root'
 
 	def value() -> str:
 		counter[0] += 1
